@@ -29,7 +29,7 @@ var modeNamePool = []string{"temperature", "spin", "program", "eco", "lock"}
 var modeValuePool = []string{"auto", "slow", "fast", "delicates", "medium", "whites", "on", "off", "v1", "v2"}
 
 func runMode(r *vk.Run) {
-	n := r.Pick(4000, 150000)
+	n := r.Pick(4000, 450000)
 	for i := 0; i < n; i++ {
 		if !r.Mine(i) {
 			continue
